@@ -6,7 +6,7 @@ import os
 import shutil
 from typing import Any, Dict
 
-from hv import core, cpdrv, drv
+from hv import core, cpdrv, drv, gen_sim
 from hv.ref import cp as refcp
 from hv.ref import raw
 from hv import wf
@@ -14,19 +14,27 @@ from hv import wf
 ID = "C19"
 RULE = ("graphs from C08's workload (G-sim, all window kinds, launch-edge flag on/off, nested node-less annotations) plus a variant in "
         "which one operator ends 1us after its parent (the tolerated rounding artefact: the analysis clamps the -1 weight in the graph "
-        "but not in the edge object); k in {1,2,3} save -> restore cycles through CPGraph.save / restore_cpgraph; after every cycle "
+        "but not in the edge object) and operator names that a CSV round trip would mangle ('<forward>', 'None', 'nan', '', '0012'); k in {1,2,3} save -> restore cycles through CPGraph.save / restore_cpgraph; after every cycle "
         "nodes, edges, weight attributes, edge objects, node_list, event/edge maps, critical path and breakdown are compared with the "
         "original and critical_path() is recomputed on the restored graph. Non-trivial: graph with >= 10 edges and >= 3 edge types. "
         "Distinct = hash of (trace, window, flag, cycles).")
 ASSUMPTIONS = ["restore_cpgraph always extracts under /tmp; the extracted directories are removed after each case",
                "breakdown frames are compared up to row order and dtype"]
 PLAN = {"quick": {"shards": 16, "cases": 192, "timeout": 900}, "thorough": {"shards": 16, "cases": 2000, "timeout": 3400}}
-FLOORS = {"quick": {"distinct_nontrivial": 60, "cycles": 250, "graphs": 120, "clamped_edge_graphs": 10, "breakdowns_compared": 250},
-          "thorough": {"distinct_nontrivial": 900, "cycles": 4000, "graphs": 1900, "clamped_edge_graphs": 150, "breakdowns_compared": 4000}}
+FLOORS = {"quick": {"distinct_nontrivial": 60, "cycles": 250, "graphs": 120, "clamped_edge_graphs": 10, "breakdowns_compared": 250, "graphs_with_csv_hostile_names": 30},
+          "thorough": {"distinct_nontrivial": 900, "cycles": 4000, "graphs": 1900, "clamped_edge_graphs": 150, "breakdowns_compared": 4000, "graphs_with_csv_hostile_names": 500}}
+
+
+ODD_NAMES = ["<forward>", "<lambda>", "(anonymous)", "None", "null", "nan", "NA", "N/A", "", "1e5", "0012", "True", " padded "]
 
 
 def gen_case(rnd, tier: str, i: Any) -> Dict[str, Any]:
-    c = cpdrv.gen_case(rnd, tier, i, annotation_nest=rnd.random() < 0.6)
+    over = {}
+    if rnd.random() < 0.35:
+        # operator names that shorten to the empty string or read like a missing value once written to CSV
+        over["ops_pool"] = rnd.sample(gen_sim.OPS, 3) + rnd.sample(ODD_NAMES, 3)
+    c = cpdrv.gen_case(rnd, tier, i, annotation_nest=rnd.random() < 0.6, **over)
+    c["odd_names"] = bool(over)
     c["cycles"] = rnd.choice([1, 2, 3])
     if rnd.random() < 0.3:
         # child operator ending 1us after its parent on some host thread
@@ -96,6 +104,8 @@ def run_case(case: Dict[str, Any], ctx: Any) -> core.CaseResult:
         if A.ok is not True:
             continue
         res.counters["graphs"] += 1
+        if case.get("odd_names"):
+            res.counters["graphs_with_csv_hostile_names"] += 1
         if any(d["weight"] != d["object"].weight for _, _, d in g.edges(data=True)):
             res.counters["clamped_edge_graphs"] += 1
         ok, bd0 = drv.guard(res, "get_critical_path_breakdown (original)", g.get_critical_path_breakdown)
